@@ -1,5 +1,6 @@
 import Pw.C02.Final
 import Pw.C02.ObsFull
+import Pw.C02.Capstone
 
 /-! # C02: non-vacuity examples (concrete histories satisfying the hypotheses of the main theorems)
 and kernel-checked sample evaluations (labelled tests, not part of the unbounded claims) -/
@@ -17,6 +18,13 @@ example : ∀ op ∈ sampleOps, op.WellKinded := by
   simp only [sampleOps, List.mem_cons, List.not_mem_nil, or_false] at h
   rcases h with rfl | rfl | rfl | rfl | rfl | rfl | rfl | rfl | rfl | rfl <;>
     simp [Op.WellKinded, GOp.WellKinded]
+
+/-- hypotheses of `Store.obs_run` are satisfiable (universe 4 nodes, 5 edge-type names) -/
+example : ∀ op ∈ sampleOps, op.Below 4 5 := by
+  intro op h
+  simp only [sampleOps, List.mem_cons, List.not_mem_nil, or_false] at h
+  rcases h with rfl | rfl | rfl | rfl | rfl | rfl | rfl | rfl | rfl | rfl <;>
+    simp [Op.Below, GOp.Below]
 
 /-- hypotheses of `MEG.obs_eq` are satisfiable: the first object after the sample history -/
 example : ∃ g ∈ Store.exec [] sampleOps, g.Inv ∧ g.NodesBelow 4 ∧ g.NamesBelow 5 ∧ g.numEdgesAll = 5 := by
